@@ -261,5 +261,6 @@ def _mask_ili(obs_by_spec):
         for d in o['synsets'].values():
             if isinstance(d, dict) and d.get('ili') and d['ili'][0] is not None:
                 d['ili'] = [d['ili'][0]]
+                d.pop('ili_inv_meta', None)
         o['ilis'] = sorted(([i[0]] if i and i[0] is not None else i for i in o['ilis']), key=str)
     return out
